@@ -213,6 +213,16 @@ gen_ctor_simp pend
 theorem pend_nil_of_not_holdsW (p : PC) (h : holdsW p = false) : pend p = [] := by
   cases p <;> simp_all
 
+/-- the write section still has a frame to append -/
+def hasPend : PC → Bool
+  | .frame sec => !sec.frames.isEmpty
+  | .writing sec fromFlush => !fromFlush && !sec.frames.isEmpty
+  | _ => false
+
+gen_ctor_simp hasPend
+
+@[simp] theorem hasPend_afterTerm (c : Call) : hasPend (afterTerm c) = false := by cases c <;> rfl
+
 /-- the frames of the transport write in flight -/
 def inflightFrames (sh : Sh) : List Frame := match sh.inflight with | some (_, fs) => fs | none => []
 
@@ -300,6 +310,40 @@ theorem step_histLe {s s' : St} {t : Tid} (h : step s t = some s')
          · exact ih f hf
          · rw [hpmt _ (by simp [*]), hmid, ofNat_toNat_of_lt hnw]; exact Nat.le_refl _))
 
+theorem step_pendPos {s s' : St} {t : Tid} (h : step s t = some s')
+    (ih : ∀ u, hasPend (s.pc u) = true → 1 ≤ s.sh.midN) :
+    ∀ u, hasPend (s'.pc u) = true → 1 ≤ s'.sh.midN := by
+  have iht := ih t
+  unfold step at h
+  pc_cases s t hp =>
+    rw [hp] at iht
+    step_explode h hp
+    all_goals (simp at iht)
+    all_goals (refine loc_step (Q := fun sh => 1 ≤ sh.midN) ih ?_ ?_)
+    all_goals (simp (config := { contextual := true }) [*])
+    all_goals (try omega)
+
+theorem step_histPos {s s' : St} {t : Tid} (h : step s t = some s')
+    (hmid : s.sh.mid = BitVec.ofNat 64 s.sh.midN)
+    (hpm : ∀ u, ∀ f ∈ pend (s.pc u), f.mid = s.sh.mid)
+    (hpp : ∀ u, hasPend (s.pc u) = true → 1 ≤ s.sh.midN)
+    (hnw : s'.sh.midN < 2^64)
+    (ih : ∀ f ∈ s.sh.hist, 1 ≤ f.mid.toNat) :
+    ∀ f ∈ s'.sh.hist, 1 ≤ f.mid.toNat := by
+  have hpmt := hpm t
+  have hppt := hpp t
+  unfold step at h
+  pc_cases s t hp =>
+    rw [hp] at hpmt hppt
+    step_explode h hp
+    all_goals (simp at hpmt hppt hnw ⊢)
+    all_goals (first
+      | exact ih
+      | (intro f hf
+         rcases hf with hf | rfl
+         · exact ih f hf
+         · rw [hpmt _ (by simp [*]), hmid, ofNat_toNat_of_lt hnw]; exact hppt (by simp [*])))
+
 theorem step_wf {s s' : St} {t : Tid} (h : step s t = some s')
     (hw : LockInv (·.w) holdsW s)
     (hmid : s.sh.mid = BitVec.ofNat 64 s.sh.midN)
@@ -360,6 +404,15 @@ theorem env_pendMid {s s' : St} {e : Env} (h : envStep s e = some s')
     simp at iht
     refine pendMid_step ih ?_ ?_ <;> first | assumption | simp [*]
 
+theorem env_pendPos {s s' : St} {e : Env} (h : envStep s e = some s')
+    (ih : ∀ u, hasPend (s.pc u) = true → 1 ≤ s.sh.midN) :
+    ∀ u, hasPend (s'.pc u) = true → 1 ≤ s'.sh.midN := by
+  env_cases h with t hp hi =>
+    have iht := ih t
+    rw [hp] at iht
+    simp at iht
+    refine loc_step (Q := fun sh => 1 ≤ sh.midN) ih ?_ ?_ <;> simp [*]
+
 theorem env_wf {s s' : St} {e : Env} (h : envStep s e = some s')
     (ih : ∀ u, WellFormed s.opts.sid (s.sh.hist ++ pend (s.pc u)) = true) :
     ∀ u, WellFormed s'.opts.sid (s'.sh.hist ++ pend (s'.pc u)) = true := by
@@ -388,6 +441,9 @@ structure Wire (s : St) : Prop where
   pendMid : ∀ u, ∀ f ∈ pend (s.pc u), f.mid = s.sh.mid
   /-- as long as the 64-bit message counter has not wrapped … -/
   histLe : s.sh.midN < 2^64 → ∀ f ∈ s.sh.hist, f.mid.toNat ≤ s.sh.midN
+  pendPos : ∀ u, hasPend (s.pc u) = true → 1 ≤ s.sh.midN
+  /-- message ids start at 1 (`id.Message++` precedes the first frame) -/
+  histPos : s.sh.midN < 2^64 → ∀ f ∈ s.sh.hist, 1 ≤ f.mid.toNat
   /-- … the history, extended by what any write section still has to append, is well-formed -/
   wf : s.sh.midN < 2^64 → ∀ u, WellFormed s.opts.sid (s.sh.hist ++ pend (s.pc u)) = true
   /-- completed writes ++ the write in flight ++ the buffer = the history, unless a write failed -/
@@ -401,6 +457,8 @@ theorem Wire.step {s s' : St} {t : Tid} (h : step s t = some s') (l : Locks s) (
   { midEq := step_midEq h i.midEq
     pendMid := step_pendMid h l.w i.pendMid
     histLe := fun hnw => step_histLe h i.midEq i.pendMid hnw (i.histLe (Nat.lt_of_le_of_lt hle hnw))
+    pendPos := step_pendPos h i.pendPos
+    histPos := fun hnw => step_histPos h i.midEq i.pendMid i.pendPos hnw (i.histPos (Nat.lt_of_le_of_lt hle hnw))
     wf := fun hnw =>
       have hnw0 := Nat.lt_of_le_of_lt hle hnw
       step_wf h l.w i.midEq (i.histLe hnw0) hnw (i.wf hnw0)
@@ -412,6 +470,8 @@ theorem Wire.env {s s' : St} {e : Env} (h : envStep s e = some s') (i : Wire s) 
   { midEq := by rw [h1, h2]; exact i.midEq
     pendMid := env_pendMid h i.pendMid
     histLe := by rw [h2, h3]; exact i.histLe
+    pendPos := env_pendPos h i.pendPos
+    histPos := by rw [h2, h3]; exact i.histPos
     wf := by rw [h2]; exact fun hnw => env_wf h (i.wf hnw)
     flat := env_flat h i.flat }
 
@@ -426,6 +486,8 @@ theorem Wire.spawn {s : St} {t : Tid} {c : Call} (hd : ∃ r, s.pc t = .done r) 
   { midEq := by simpa using i.midEq
     pendMid := pendMid_step i.pendMid (by simp) (.inl rfl)
     histLe := by simpa using i.histLe
+    pendPos := loc_step (Q := fun sh => 1 ≤ sh.midN) i.pendPos (by simp) (.inl id)
+    histPos := by simpa using i.histPos
     wf := fun hnw => by
       simp only [upd_opts]
       exact wf_step (i.wf (by simpa using hnw)) (by simpa using hwt (by simpa using hnw)) (.inl rfl)
